@@ -19,6 +19,8 @@ use crate::session::{uri_of, write_files, Session, SessionError};
 pub struct Touch {
     pub doc: &'static str,
     pub text: String,
+    /// the tab is closed and opened again with this text: the document's version count restarts at 1
+    pub reopen: bool,
 }
 
 pub struct Scenario {
@@ -29,7 +31,7 @@ pub struct Scenario {
 
 fn show(h: &[usize], sc: &Scenario) -> String {
     h.iter()
-        .map(|&i| format!("{}:={:?}", sc.alphabet[i].doc, sc.alphabet[i].text))
+        .map(|&i| format!("{}{}:={:?}", sc.alphabet[i].doc, if sc.alphabet[i].reopen { " (reopened)" } else { "" }, sc.alphabet[i].text))
         .collect::<Vec<_>>()
         .join(" ; ")
 }
@@ -38,10 +40,14 @@ pub fn c11_scenario() -> Scenario {
     let mut alphabet = Vec::new();
     for (x, y) in [("a.td", "b.td"), ("b.td", "a.td")] {
         let n = &x[..1];
-        alphabet.push(Touch { doc: x, text: format!("class {n}0;\n") });
-        alphabet.push(Touch { doc: x, text: format!("def {n}1 : Missing;\n") });
-        alphabet.push(Touch { doc: x, text: format!("include \"{y}\"\nclass {n}2;\n") });
-        alphabet.push(Touch { doc: x, text: format!("include \"c.td\"\nclass {n}3;\n") });
+        alphabet.push(Touch { doc: x, text: format!("class {n}0;\n"), reopen: false });
+        // the same fault at the same byte offset on another line: the published range must follow
+        alphabet.push(Touch { doc: x, text: format!(" def {n}1 : Missing;\n"), reopen: false });
+        alphabet.push(Touch { doc: x, text: format!("\ndef {n}1 : Missing;\n"), reopen: false });
+        alphabet.push(Touch { doc: x, text: format!("include \"{y}\"\nclass {n}2;\n"), reopen: false });
+        // the same include list with the statement at another place
+        alphabet.push(Touch { doc: x, text: format!("// moved\ninclude \"{y}\"\nclass {n}2;\n"), reopen: false });
+        alphabet.push(Touch { doc: x, text: format!("include \"c.td\"\nclass {n}3;\n"), reopen: false });
     }
     Scenario {
         id: "C11",
@@ -55,19 +61,22 @@ pub fn c12_scenario() -> Scenario {
         id: "C12",
         disk: vec![("a.td", "include \"b é.td\"\ndef x : DiskB;\n".into()), ("b é.td", "class DiskB;\n".into())],
         alphabet: vec![
-            Touch { doc: "a.td", text: "include \"b é.td\"\ndef x : BufB;\n".into() },
-            Touch { doc: "a.td", text: "// edited\ninclude \"b é.td\"\ndef y : BufB2;\n".into() },
-            Touch { doc: "a.td", text: "include \"b é.td\"\ndef z : DiskB;\n".into() },
+            Touch { doc: "a.td", text: "include \"b é.td\"\ndef x : BufB;\n".into(), reopen: false },
+            Touch { doc: "a.td", text: "// edited\ninclude \"b é.td\"\ndef y : BufB2;\n".into(), reopen: false },
+            Touch { doc: "a.td", text: "include \"b é.td\"\ndef z : DiskB;\n".into(), reopen: false },
             // the root without its include: b.td leaves the workspace but stays open in the editor
-            Touch { doc: "a.td", text: "def w;\n".into() },
-            Touch { doc: "b é.td", text: "class BufB;\n".into() },
-            Touch { doc: "b é.td", text: "class BufB2;\n".into() },
-            Touch { doc: "b é.td", text: "class BufB;\nclass BufB2;\ndef bb : Nope;\n".into() },
+            Touch { doc: "a.td", text: "def w;\n".into(), reopen: false },
+            Touch { doc: "b é.td", text: "class BufB;\n".into(), reopen: false },
+            Touch { doc: "b é.td", text: "class BufB2;\n".into(), reopen: false },
+            Touch { doc: "b é.td", text: "class BufB;\nclass BufB2;\ndef bb : Nope;\n".into(), reopen: false },
             // the included file includes the root back: the walk reaches the edited document again
-            Touch { doc: "b é.td", text: "include \"a.td\"\nclass BufB;\n".into() },
+            Touch { doc: "b é.td", text: "include \"a.td\"\nclass BufB;\n".into(), reopen: false },
             // the editor's buffer is empty (everything deleted) while the file on disk is not
-            Touch { doc: "b é.td", text: String::new() },
-            Touch { doc: "a.td", text: String::new() },
+            Touch { doc: "b é.td", text: String::new(), reopen: false },
+            Touch { doc: "a.td", text: String::new(), reopen: false },
+            // a tab closed and opened again: its version numbers start again below the ones seen before
+            Touch { doc: "b é.td", text: "class BufB2;\n".into(), reopen: true },
+            Touch { doc: "a.td", text: "include \"b é.td\"\ndef y : BufB2;\n".into(), reopen: true },
         ],
     }
 }
@@ -129,14 +138,21 @@ fn run_session(sc: &Scenario, h: &[usize], dir: &PathBuf, check_every_step: bool
     let mut problems: Vec<(String, String)> = Vec::new();
     let mut versions: BTreeMap<String, i64> = BTreeMap::new();
     let mut seen_pubs = 0usize;
-    let mut version = 1;
+    let mut doc_versions: BTreeMap<&str, i64> = BTreeMap::new();
     for (k, &i) in h.iter().enumerate() {
         let t = &sc.alphabet[i];
-        if model.buffers.contains_key(t.doc) {
-            version += 1;
-            s.did_change(t.doc, &t.text, version)?;
+        // versions count per document, as editors send them
+        let v = doc_versions.entry(t.doc).or_insert(0);
+        if model.buffers.contains_key(t.doc) && !t.reopen {
+            *v += 1;
+            s.did_change(t.doc, &t.text, *v)?;
         } else {
-            s.did_open(t.doc, &t.text)?;
+            if model.buffers.contains_key(t.doc) {
+                s.did_close(t.doc)?;
+            }
+            // the first open of a tab carries a high version (a long-lived buffer), a re-opened one starts at 1
+            *v = if t.reopen { 1 } else { 10 };
+            s.did_open_versioned(t.doc, &t.text, *v)?;
         }
         model.buffers.insert(t.doc.to_string(), t.text.clone());
         model.root = Some(t.doc.to_string());
@@ -215,11 +231,27 @@ fn history_of(case: &Value) -> Vec<usize> {
     case["history"].as_array().map(|a| a.iter().filter_map(|x| x.as_u64()).map(|x| x as usize).collect()).unwrap_or_default()
 }
 
-fn explore(sc: &Scenario, depth: u32, ctx: &mut Ctx) {
+/// Every history of <= `depth` messages over the whole alphabet, and every history of exactly
+/// `depth + 1` messages over the letters listed in `core` (none when empty).
+fn explore(sc: &Scenario, depth: u32, core: &[usize], ctx: &mut Ctx) {
     let dir = session_dir(sc.id, ctx.shard);
     let (shard, n) = (ctx.shard, ctx.nshards);
     let mut states: BTreeSet<String> = BTreeSet::new();
+    let mut histories: Vec<Vec<usize>> = Vec::new();
     words::for_each_word(sc.alphabet.len(), depth, shard, n, |_, h| {
+        histories.push(h.to_vec());
+        true
+    });
+    if !core.is_empty() {
+        words::for_each_word(core.len(), depth + 1, shard, n, |_, w| {
+            if w.len() as u32 == depth + 1 {
+                histories.push(w.iter().map(|&i| core[i]).collect());
+            }
+            true
+        });
+    }
+    for h in histories.iter().map(|h| h.as_slice()) {
+        let go = (|| {
         if h.is_empty() {
             return true;
         }
@@ -242,7 +274,11 @@ fn explore(sc: &Scenario, depth: u32, ctx: &mut Ctx) {
             ctx.fail(f);
         }
         !ctx.expired()
-    });
+        })();
+        if !go {
+            break;
+        }
+    }
     ctx.max("states", states.len() as u64);
     let _ = std::fs::remove_dir_all(&dir);
 }
@@ -259,7 +295,7 @@ impl Engine for C11 {
     }
     fn rule(&self, tier: Tier) -> String {
         format!(
-            "every session of <= {} didOpen/didChange messages over two documents x 4 texts each (clean; faulty; includes the other document; includes a faulty file that is only on disk), \
+            "every session of <= {} didOpen/didChange messages over two documents x 6 texts each (clean; faulty, twice: the same fault at the same byte offset on two different lines; includes the other document, twice: the include statement at two different places; includes a faulty file that is only on disk), \
              the first message to a document being didOpen and later ones didChange, driven through the real server one message at a time to quiescence; after the last message of every session \
              (every session is a prefix of longer ones) the latest publication per URI must equal the diagnostics of the final state and be empty for URIs outside the final workspace; versions per URI never decrease. \
              states = distinct (buffers, root) configurations; transitions = messages; non-trivial = sessions of >= 2 messages.",
@@ -273,7 +309,7 @@ impl Engine for C11 {
         ]
     }
     fn explore(&self, tier: Tier, ctx: &mut Ctx) {
-        explore(&c11_scenario(), tier.pick(3, 5), ctx);
+        explore(&c11_scenario(), tier.pick(3, 5), &[], ctx);
     }
     fn eval_case(&self, case: &Value) -> Vec<Failure> {
         let dir = session_dir("C11", 99);
@@ -296,9 +332,10 @@ impl Engine for C12 {
     }
     fn rule(&self, tier: Tier) -> String {
         format!(
-            "every session of <= {} messages over {{a.td := 5 texts (three include b.td, one does not, so that b.td leaves and re-enters the workspace while open), b.td := 5 texts, one of which includes a.td back so that the include walk reaches the edited document again; both documents also have the empty text}}, the included document is named `b é.td` (its URI carries percent-escapes); the on-disk b.td declares DiskB and the editor's b.td declares BufB / BufB2 (a's texts refer to one of them), \
+            "every session of <= {} messages over the 12 letters below and every session of {} messages over 8 of them (a with and without its include, b's two buffers, b including a back, b emptied, both re-opened): {{a.td := 5 texts (three include b.td, one does not, so that b.td leaves and re-enters the workspace while open), b.td := 5 texts, one of which includes a.td back so that the include walk reaches the edited document again; both documents also have the empty text, and each can be closed and opened again; versions count per document, the first open of a tab carries version 10, a re-opened tab starts again at 1}}, the included document is named `b é.td` (its URI carries percent-escapes); the on-disk b.td declares DiskB and the editor's b.td declares BufB / BufB2 (a's texts refer to one of them), \
              first message to a document = didOpen, later = didChange; after EVERY message the latest publications and the documentSymbol response of every open document must match the reference session model \
              (texts = disk overlaid by open buffers, root = last touched document). states = distinct (buffers, root) configurations; transitions = messages; non-trivial = sessions of >= 2 messages.",
+            tier.pick(3, 4),
             tier.pick(4, 5)
         )
     }
@@ -306,7 +343,8 @@ impl Engine for C12 {
         vec!["the file system is a directory of small files written by the harness; real editors and disk faults are out of scope".into()]
     }
     fn explore(&self, tier: Tier, ctx: &mut Ctx) {
-        explore(&c12_scenario(), tier.pick(4, 5), ctx);
+        // the core letters: a with and without its include, b's two buffers, b including a back, b emptied, both re-opened
+        explore(&c12_scenario(), tier.pick(3, 4), &[0, 3, 4, 5, 7, 8, 10, 11], ctx);
     }
     fn eval_case(&self, case: &Value) -> Vec<Failure> {
         let dir = session_dir("C12", 99);
